@@ -218,6 +218,26 @@ def run(ctx):
         ctx.check(price_ok, "K4-loop", pre + "|limit", c.loc(),
                   "passive order acquired only while the limit admits the best %s price (%s)" % (r.lower(), "limit >= best ask" if r == "Ask" else "limit <= best bid"),
                   "loop condition lacks the non-strict limit test against the %s side's best price (conditions: %s)" % (r, c.gtext()))
+        # the best price the limit is tested against is CURRENT: nothing may change the passive side between the query and
+        # the test that uses it (a cached `best_price` refreshed before the filled head order is removed is stale by one order)
+        limit_blocks = set()
+        for b_ in sorted(body):
+            t_ = q.body.blocks[b_].term
+            if t_ is None or t_.k != "switch":
+                continue
+            for s_ in set(q.body.succs(b_)):
+                for a in q.cfg.edge_atoms(b_, s_):
+                    if a[0] == "cmp" and a[1] in ("le", "lt", "ge", "gt") and any(x[0] == "call" and x[4] == "best_price" and (r + "Side") in x[1] for x in (a[2], a[3])):
+                        limit_blocks.add(b_)
+        live_ = q.cfg.reach_from(0)
+        bps = [x for x in q.calls("best_price") if x.b in live_ and (r + "Side") in x.resolved]
+        for S_blk in sorted(limit_blocks):
+            for x in bps:
+                others = [y.b for y in bps if y.b != x.b]
+                if S_blk in q.cfg.reach_from(x.b, cut_blocks=[y for y in others if y != S_blk]):
+                    fresh = q.cfg.pure_path(x.b, S_blk, cut=tuple(others))
+                    ctx.check(fresh, "K4-loop", pre + "|fresh-best-price", x.loc(), "the best %s price tested by the loop is read with nothing in between that changes the side" % r.lower(),
+                              "the %s side can change (an order removed / volume taken) between this best_price() query and the loop's limit test: the limit is tested against a stale price" % r)
         # same entity in both atoms
         if vol_atoms and price_ok:
             e1 = vol_atoms[0][2][1]
